@@ -11,6 +11,7 @@ CONSTANTS
   NShards = 1
   ShardNo = 0
   Rots = {0}
+  VisModes = {"all", "hide"}
   Fuel = 10
   Export = TRUE
 INVARIANTS Exported
